@@ -78,9 +78,10 @@ def _local_names(fi):
 
 
 def _sym_env(fi, nodes):
-    loc = _local_names(fi)
+    # every local of the function is part of the symbolic state of a fragment (a variable the reference updates and the
+    # repository leaves alone must show up as a difference)
     env = {}
-    for nm in sorted(_names_used(nodes) & loc):
+    for nm in sorted(_local_names(fi)):
         env[nm] = T.sym('$' + nm)
     return env
 
